@@ -19,6 +19,7 @@ pub mod c15;
 pub mod c16;
 pub mod c17;
 pub mod c18;
+pub mod c19;
 pub mod c20;
 
 const NEEDS_MIR: [&str; 5] = ["C08", "C11", "C12", "C16", "C20"];
@@ -55,6 +56,7 @@ pub fn dispatch(prop: &str, m: &Model, ctx: &mut Ctx, facts: Option<&Value>) -> 
         "C15" => c15::run(m, ctx),
         "C17" => c17::run(m, ctx),
         "C18" => c18::run(m, ctx),
+        "C19" => c19::run(m, ctx),
         "C08" => c08::run(m, ctx, loaded.as_ref().unwrap()),
         "C11" => c11::run(m, ctx, loaded.as_ref().unwrap()),
         "C12" => c12::run(m, ctx, loaded.as_ref().unwrap()),
